@@ -19,6 +19,8 @@ RULE = ('Vector-type TTs of order 2..5 (mode sizes 1..4, real/complex) in three 
         'at the last bond, a real cut, or order >= 4.')
 RULE += (' ' + 'Added classes: prescribed spectra over eight decades under a random gauge, long modes, side cores orthonormal only to 3e-6 or single precision, NumPy-scalar threshold / max_rank; the input of a call without overwrite is compared bit by bit.')
 
+RULE += (' Added class: real-typed cores inside a complex train (generic class).')
+
 ASSUMPTIONS = [
     'column dimensions are 1 (documented: non-operator tensor trains)',
     'real cuts (threshold or max_rank that discards non-negligible singular values) only on inputs whose factors left/right of '
@@ -56,6 +58,10 @@ def svd_case(draw):
         case['provenance'] = draw(st.sampled_from([None, None, None, 'ortho_left_scaled', 'ortho_right_scaled', 'ortho_negated_sum', 'copy_of_ortho_left']))
         if case.get('aliased_product'):
             case['provenance'] = None
+        if cplx and d >= 2 and draw(st.sampled_from([False, False, True])):
+            # some cores of the complex train are real-typed (a complex first core followed by real ones, ...); at least one stays complex
+            real = [i for i in range(d) if draw(st.booleans())]
+            case['real_cores'] = real[1:] if len(real) == d else real
     else:
         nl = int(np.prod(rows[:index]))
         nr = int(np.prod(rows[index:]))
@@ -122,6 +128,8 @@ def build_case(case):
     d = len(rows)
     if case['klass'] == 'generic':
         spec = {'rows': rows, 'cols': [1] * d, 'ranks': case['ranks'], 'cplx': cplx, 'seed': case['seed'], 'layout': case['layout']}
+        if case.get('real_cores'):
+            spec['real_cores'] = case['real_cores']
         return build.make_cores(spec, rng)
     s = 10.0 ** np.array(case['spectrum_exp'])
     k = len(s)
@@ -216,6 +224,8 @@ def body_svd(case):
     th = case['threshold']
     mr = np.inf if case['max_rank'] is None else case['max_rank']
     lab = {case['klass']}
+    if case['cplx'] and case.get('real_cores') and case['klass'] == 'generic':
+        lab.add('mixed_core_dtypes')
     if case['cplx']:
         lab.add('complex')
     if idx != d - 1:
